@@ -26,7 +26,7 @@ C_LIGHT = 299792458.0
 
 def REQUIRED(tier):
     return ["kernel_direct", "filterbank_fold", "timeseries_fold", "pulse_train", "conservation_checks", "cell_count_checks", "gulp_identity_checks",
-            "regime:gulp<2*maxdelay", "regime:nbands_not_dividing", "regime:accel!=0", "regime:multi_block", "canary_audits", "regime:multi_file_input", "long_folds", "pulse_train_edge_bins", "regime:nbands>nchans", "regime:small_accel_long_fold", "subint_edge_folds", "regime:fold_after_a_failed_fold", "regime:series_header_carries_accel"]
+            "regime:gulp<2*maxdelay", "regime:nbands_not_dividing", "regime:accel!=0", "regime:multi_block", "canary_audits", "regime:multi_file_input", "long_folds", "pulse_train_edge_bins", "regime:nbands>nchans", "regime:small_accel_long_fold", "subint_edge_folds", "regime:fold_after_a_failed_fold", "regime:series_header_carries_accel", "regime:file_header_carries_refdm"]
 
 
 def cases(tier, seed):
@@ -200,7 +200,11 @@ def run_case(case, ctx):
     split = [b - a for a, b in zip([0] + cuts, cuts + [N])]
     dd = os.path.join(ctx.tmp, "c11in")
     os.makedirs(dd, exist_ok=True)
-    paths = sigfile.write_split(dd, X, nbits, split, fch1=fch1, foff=foff, tsamp=tsamp)
+    # the reference DM a file carries in its header is a label: the fold is made at the DM it is asked for
+    labelled = case["seed"] % 100003 % 4 == 1
+    if labelled:
+        ctx.count("regime:file_header_carries_refdm")
+    paths = sigfile.write_split(dd, X, nbits, split, fch1=fch1, foff=foff, tsamp=tsamp, **({"refdm": 12.5} if labelled else {}))
     if nfiles > 1:
         ctx.count("regime:multi_file_input")
     fil = FilReader(paths, check_contiguity=False) if nfiles > 1 else FilReader(paths[0])
